@@ -1,15 +1,25 @@
 // C05 driver: Reduce.   case: red <T A>    output: R <T result> I <T operand afterwards>
+//   history: red2 <T A> <T A2>  (A2 has A's rule list as a prefix and A's final states among its own): Reduce is called on an object holding A, the SAME
+//            object is then modified in place (AddTransition / SetStateFinal) until it holds A2 and Reduce is called again;
+//            output: R <T> I <T> R <T> I <T>
 #include "common.hh"
 using namespace vd;
 int main() {
 	std::string line;
 	while (std::getline(std::cin, line)) {
 		guarded([&]() {
-			Toks t(line); t.expect("red"); TA a = readTA(t);
+			Toks t(line); std::string kind = t.word(); TA a = readTA(t);
+			if (kind != "red" && kind != "red2") throw std::runtime_error("driver: unknown case kind");
 			VATA::ExplicitTreeAut aut = mkAut(a);
-			VATA::ExplicitTreeAut r = aut.Reduce();
 			std::ostringstream os;
-			os << "R " << showTA(obsAut(r)) << " I " << showTA(obsAut(aut));
+			{ VATA::ExplicitTreeAut r = aut.Reduce(); os << "R " << showTA(obsAut(r)) << " I " << showTA(obsAut(aut)); }
+			if (kind == "red2") {
+				TA a2 = readTA(t);
+				if (a2.rules.size() < a.rules.size()) throw std::runtime_error("driver: red2 needs an extension");
+				for (size_t i = a.rules.size(); i < a2.rules.size(); ++i) { const Rule& r = a2.rules[i]; VATA::ExplicitTreeAut::StateTuple tup(r.ch.begin(), r.ch.end()); aut.AddTransition(tup, r.sym, r.par); }
+				for (U f : a2.finals) aut.SetStateFinal(f);
+				VATA::ExplicitTreeAut r = aut.Reduce(); os << " R " << showTA(obsAut(r)) << " I " << showTA(obsAut(aut));
+			}
 			return os.str();
 		});
 	}
